@@ -70,6 +70,10 @@ CLAIMED = {
          "Exploration of the boundary of every scheme's domain: each case injects one out-of-domain request kind (oversized polynomial by degree/total degree/variables, hiding bound 0 or beyond the key, missing RNG, point of the wrong length, unknown polynomial, missing commitment/evaluation, mismatched labels, trim beyond the parameters, degenerate setup) at a generated magnitude into an otherwise valid generated scenario; Ok results are violations (or, where the scheme defines the request, anything served must be sound). Sensitivity confirmed against the reverted fixes F11, F12, F13 (and F7 through C01).",
          "Which requests are out of domain is read from each scheme's documentation/admission code (IPA: every hiding bound hides; Ligero: no size limit; PST13/multilinear-PST embed polynomials with fewer variables).",
          "DESIGN.md §4 C17"),
+ "C11": ("stateful property-based testing: generated operation histories interpreted on one shared sponge per side, sponge-state digests compared after every prefix, proof transposition and pre-state mutations",
+         "Exploration over histories (vec of 1-6 operations, shrunk as one value) of open / batch_open / open_combinations on one pre-seeded prover sponge, replayed by the verifier on an identically initialised sponge: every check must accept and both sponges must squeeze identical values after every prefix; transposed proofs and a different verifier pre-state must be rejected at the first affected check for non-constant polynomials. Catches the sub-agent change seeded/C11 (prover skipping one squeeze for constant degree-bounded non-hiding polynomials).",
+         "Mutation rejection is not asserted for constant polynomials (property caveat) nor for code-based instances whose Fiat-Shamir positions collide with probability above 2^-40.",
+         "DESIGN.md §4 C11"),
 }
 
 NOT_YET = "check not built yet in this round (planned, see DESIGN.md §4)"
